@@ -10,7 +10,7 @@ from props.common import load_def, mk_dfa, outcome
 
 RULE = ("valid DFA definitions: random (1-6 states, 1-3 symbols, 7 name pools incl. negative ints) plus shaped ones - "
         "a live core with dead states entered by explicit edges, unreachable states, cloned (Nerode-equivalent) states, "
-        "dead / non-final initial state, empty and universal languages, already-minimal inputs (the model's own result fed "
+        "larger dense DFAs (6-9 states), dead / non-final initial state, empty and universal languages, already-minimal inputs (the model's own result fed "
         "back), states named -1, -2 (trap-name collision); each evaluated through minify(), minify(retain_names=True), "
         "to_partial(minify=True, retain_names=False/True), to_partial(minify=False) and minify().minify(); "
         "distinct = distinct canonical input; non-trivial = the minimal automaton has fewer states than the input "
@@ -85,6 +85,21 @@ def shaped_def(rng):
     if dead and r < 0.08:
         init = dead[0]                      # dead initial state
     return dict(states=set(names), input_symbols=set(sigma), transitions=trans, initial_state=init,
+                final_states=finals, allow_partial=partial)
+
+
+def big_def(rng):
+    """Larger, dense automata (6-9 states, 2-3 symbols): many splitting rounds, so a wrong splitter
+    schedule in the implementation's refinement shows as an unmerged or wrongly merged class."""
+    sigma = rng.choice(["ab", "abc", "abc", "xyz"])
+    n = rng.randint(6, 9)
+    names, _ = gen.pick_names(rng, n, rng.choice(["int", "negint", "str", "tuple"]))
+    partial = rng.random() < 0.5
+    dens = rng.choice([1.0, 0.95, 0.85]) if partial else 1.0
+    trans = {q: {a: rng.choice(names) for a in sigma if rng.random() < dens} for q in names}
+    pf = rng.choice([0.2, 0.35, 0.5])
+    finals = {q for q in names if rng.random() < pf} or {rng.choice(names)}
+    return dict(states=set(names), input_symbols=set(sigma), transitions=trans, initial_state=names[0],
                 final_states=finals, allow_partial=partial)
 
 
@@ -354,11 +369,13 @@ def run(ctx):
     ctx.rule = RULE
     rng = ctx.rng
     check_defs(ctx, corner_defs())
-    n = ctx.n(700, 40000)
+    n = ctx.n(1000, 50000)
     stream = []
     for i in range(n):
-        r = i % 4
-        if r == 0:
+        r = i % 5
+        if r == 4:
+            stream.append(("big", big_def(rng)))
+        elif r == 0:
             stream.append(("random", gen.rand_dfa_def(rng)))
         elif r == 1:
             stream.append(("random_negint", gen.rand_dfa_def(rng, names=gen.pick_names(rng, 6, "negint")[0])))
